@@ -80,6 +80,11 @@ CLAIMS = {
         text="Conforms(value, annotation) is a recursive TLA+ operator written from the statement (bool only to bool, ints for float, None only where allowed, exact length for fixed tuples, literals by membership, unions by any member, nodes by instance, NewType transparent); TLC exports every accepted annotation term up to the depth bound x 29 value terms; each annotation becomes a class, each value a construction with RUNTIME_TYPE_CHECK on (success or InvalidTypes naming exactly the field) and off (same node); three-field classes check invalid_fields is exactly the set of non-conforming fields. Random accepted terms of depth <= 3 x random values are recorded and validated by Trace_Typing.tla.",
         note="Trusted: TLC, renderer. Not compared (statement silent): bool values against annotations mentioning float or Literal, str values for Sequence, Mapping annotations.",
         design="6 C13"),
+    "C20": dict(
+        technique="TLA+ oracles of C05 / C07 (Heap.tla traversal orders, TreeQ.tla path semantics) lifted to the legacy API in Gen_LegacyTrav.tla + TLC tree enumeration replayed into pyoak.legacy + TLC trace validation",
+        text="Legacy traversal is specified as the C05 orders shifted by the start node (offered to filter and prune unless skip_self) and legacy xpath matching as TreeQ.Match along the parent chain; TLC checks the shift law and the agreement of the two path formulations and exports, for every attached legacy tree of <= N objects over six classes with tuple, list, optional and required child fields, every prune x filter subset of the nodes x skip_self for dfs pre / post / bfs, gather runs, all 1-step and sampled / derived multi-step xpaths with the expected matching node set, and the path calculate_xpath must assign to every node. Random attached trees incl. 13-element tuples / lists with indices up to 12 are recorded and validated by Trace_LegacyTrav.tla.",
+        note="Trusted: TLC, zoo renderer, xpath text renderer. Malformed-text rejection of the legacy parser shares the grammar of C17 and is exercised there only for the current parser.",
+        design="6 C20"),
     "C10": dict(
         technique="TLA+ action properties (Immutable, MembershipFrame, FailFrame) on Registry.tla + Observe actions replayed with per-step fingerprints of every live node",
         text="In the Registry machine no action changes the record of a surviving slot (Immutable) and registry membership changes only in detach / detach_self / replace on the receiver's subtree (MembershipFrame); Observe actions stand for every read-only operation kind (traversals, Tree queries, xpath, patterns, visitors, transformers, comparison, hashing, rich printing, accessors, (de)serialization, setattr / delattr on every field) and are UNCHANGED. TLC exports every transition; the driver fingerprints every live node before each call and compares after it, and compares the whole abstract state with the spec's. Recorded histories are checked the same way at every step.",
